@@ -688,6 +688,20 @@ func RunC17(t *testing.T, spec kernel.Spec) *kernel.Outcome {
 		c.other, err = mk(ohk, obk)
 		if err == nil {
 			c.rp, err = mk(hk, bk) // mounted last: this is the instance that serves web.sim
+			if err == nil && kc.Bool(1, 2) {
+				// applications put what they need after the login into the state (a return address, a serialised form): every
+				// third login of these worlds carries a state of one to two kilobytes (still within the cookie's size limit)
+				longN := 0
+				client := c.client
+				c.rp.StateGen = func() string {
+					longN++
+					if longN%3 != 0 {
+						return fmt.Sprintf("%s-state-g%d", client, longN)
+					}
+					o.Probe("logins-with-a-state-longer-than-a-kilobyte")
+					return fmt.Sprintf("%s-state-g%d-", client, longN) + strings.Repeat("return-to/", 105+(longN*7)%50)
+				}
+			}
 		}
 		if err != nil {
 			o.Infra = "rp: " + err.Error()
